@@ -195,8 +195,15 @@ def _const_part(g, res, big=False):
 
 def _source_part(g, res):
     F = res["findings"]
-    beta = U.generic_array(g.dims, tag=51, signed=True)
-    gamma = U.generic_array(g.dims, tag=53, signed=True)
+    fields = [("generic", U.generic_array(g.dims, tag=51, signed=True), U.generic_array(g.dims, tag=53, signed=True))]
+    if g.d > 1:     # layered media: beta / gamma vary along one axis only
+        fields.append(("beta along the last axis, gamma along the first", U.layered_array(g.dims, g.d - 1, tag=55, signed=True), U.layered_array(g.dims, 0, tag=57, signed=True)))
+        fields.append(("beta along the first axis, gamma along the last", U.layered_array(g.dims, 0, tag=55, signed=True), U.layered_array(g.dims, g.d - 1, tag=57, signed=True)))
+    for _fname, beta, gamma in fields:
+        _source_fields(g, res, F, beta, gamma, _fname)
+
+
+def _source_fields(g, res, F, beta, gamma, fname):
     for bcname in ("noflux", "dirichlet"):
         bc = pf.BoundaryConditions(g.mesh)
         if bcname == "dirichlet":
